@@ -191,7 +191,7 @@ def check(case):
     if worst > tol:
         fails.append(('currents', 'currents on the real half differ by %.3g of the largest current (tol %.2g, cond %.3g)' % (worst, tol, c)))
     # gain
-    if mg.power > 0 and mf.power > 0:
+    if common.net_power_ok(mg) and common.net_power_ok(mf):
         A = build.mm.Angle
         mg.compute_far_field(A(3, 12, 8), A(0, 40, 9))
         mf.compute_far_field(A(3, 12, 8), A(0, 40, 9))
